@@ -79,9 +79,7 @@ def subnetCount (n : Net) (q : Int) (count : Option Int) : R (Option Nat) :=
   else if ¬ ((n.plen : Int) ≤ q) then .ok none
   else
     let maxS : Int := (maxSubnets w n.plen q.toNat : Nat)
-    let c : Int := match count with
-      | none => maxS
-      | some c => c
+    let c : Int := count.getD maxS          -- `if count is None: count = max_subnets`
     if ¬ (1 ≤ c ∧ c ≤ maxS) then .error .value
     else .ok (some c.toNat)
 
